@@ -163,7 +163,8 @@ def event_class(ev):
 
 def judge_factory(cfg):
     kw = CFGS[cfg]
-    tag = "" if cfg == "shipped" else "[%s]" % cfg
+    # only the configuration that changes the server's dispatch is part of a finding's identity
+    tag = "[gss-bound]" if cfg == "gss-bound" else ""
 
     def judge(hist, obs, acc):
         m = R.Model(gss_enabled=kw["gss"], enforce_cap=False)
